@@ -38,6 +38,7 @@ def config(rng, tier):
         "steps": rng.randrange(3, 31 if deep else 13),
         "fault_rate": rng.choice([0.0, 0.1, 0.25, 0.4]),
         "edits": rng.random() < 0.7,
+        "interval_share": rng.choice([0.6, 0.6, 1.0, 0.0, 0.85]),
     }
 
 
@@ -291,8 +292,10 @@ def generate(run, rng):
     uni = cfg["uniform_span"]
     top = 16.0 if cfg["regime"] == "grid" else 1000.0
 
+    kindp = cfg.get("interval_share", 0.6)
+
     def mk_tier(name=None):
-        st = g.ctor_interval(w, name) if rng.random() < 0.6 else g.ctor_point(w, name)
+        st = g.ctor_interval(w, name) if rng.random() < kindp else g.ctor_point(w, name)
         if uni:
             st["a"][2], st["a"][3] = 0.0, top
         elif rng.random() < 0.3:
@@ -430,12 +433,14 @@ def generate(run, rng):
             elif k < 0.65:
                 mode = g.pick(SPACE_MODES) if not (fault and rng.random() < 0.3) else BAD_OPTION
                 run.do({"op": "tg.insertSpace", "recv": tgh, "a": [g.time(pool), g.duration(), mode], "out": out_h})
-            elif k < 0.82:
+            elif k < 0.78:
                 mode = g.pick(REPORT) if not (fault and rng.random() < 0.3) else BAD_OPTION
                 run.do({"op": "tg.editTimestamps", "recv": tgh, "a": [g.offset(), mode], "out": out_h})
             else:
-                if rng.random() < 0.4 or not names:
+                if rng.random() < 0.3 or not names:
                     sel = None
+                elif rng.random() < 0.5:
+                    sel = rng.sample(names, len(names))  # every tier, in an order of the caller's choosing
                 else:
                     sel = rng.sample(names, rng.randrange(1, len(names) + 1))
                     if fault and rng.random() < 0.3:
